@@ -762,9 +762,20 @@ func (x *vc) evalCall(env *cenv, e *cexpr) Val {
 		v := x.eval(env, e.args[0])
 		i := x.eval(env, e.args[1])
 		return Val{T: app("rv_index", v.T, i.T), Typ: v.Typ}
+	case "ifaceof": // ifaceof(v): v.Interface() as a term (the interface value a reflect.Value was made from / would yield)
+		v := x.eval(env, e.args[0])
+		return Val{T: app("rv_iface", v.T), Typ: types.NewInterfaceType(nil, nil)}
 	case "rvof": // rvof(x): reflect.ValueOf(x)
 		v := x.eval(env, e.args[0])
-		return Val{T: app("rv_of", v.T), Typ: nil}
+		var rvT types.Type
+		for _, pk := range x.p.prog.AllPackages() {
+			if pk.Pkg.Path() == "reflect" {
+				if o := pk.Pkg.Scope().Lookup("Value"); o != nil {
+					rvT = o.Type()
+				}
+			}
+		}
+		return Val{T: app("rv_of", v.T), Typ: rvT}
 	case "frame": // frame(x): the heap arrays that hold x's kind of container are unchanged at every reference that existed at entry
 		v := x.eval(env, e.args[0])
 		var names []string
